@@ -446,6 +446,11 @@ def run(ctx):
         res.case((fam, c["tag"], c["source"], repr(a)[:300]), nontrivial=n_int > 0)
         if "err" in a:
             res.count("base-raises:" + str(a["err"]))
+            # two presentations that both raise compare equal; an annotator that raises on a well-formed structure is
+            # no longer the function the model describes
+            if not any(f["signature"].startswith("C05:corr:annotator-raises") for f in res.failures):
+                res.fail("corr", "C05:corr:annotator-raises:%s" % a["err"], case_input(c),
+                         "the real annotation of the base presentation raises %s; the model annotates it" % a["err"])
         res.count("residues<=3" if len(c["base"]) <= 3 else "residues<=30" if len(c["base"]) <= 30 else "residues>30")
         if mb.get("tied") == "true":
             res.count("inputs-with-tied-competitors")
